@@ -358,9 +358,9 @@ def configurations(cx):
     for tag, pw in (("pows=[2,0,1]", pows_perm), ("pows=[1,2]", pows_sub)):
         out.append(("SDMXSettings(%s)" % tag, lambda pw=pw: s.new(ST, "SDMXSettings", pw())))
     out.append(("SDMXGSettings(pows=[2,0,1],ndt=2)", lambda: s.new(ST, "SDMXGSettings", pows_perm(), num(2))))
-    out.append(("SDMXGSettings(pows=[1,2],ndt=1)", lambda: s.new(ST, "SDMXGSettings", pows_sub(), num(1))))
+    out.append(("SDMXGSettings(pows=[1,2],ndt=2)", lambda: s.new(ST, "SDMXGSettings", pows_sub(), num(2))))
     out.append(("SDMX1Settings(pows=[2,0,1],n1=1)", lambda: s.new(ST, "SDMX1Settings", pows_perm(), num(1))))
-    out.append(("SDMX1Settings(pows=[1,2],n1=1)", lambda: s.new(ST, "SDMX1Settings", pows_sub(), num(1))))
+    out.append(("SDMX1Settings(pows=[1,2],n1=2)", lambda: s.new(ST, "SDMX1Settings", pows_sub(), num(2))))
     out.append(("SDMXG1Settings(pows=[2,0,1],nd=2,n1=1)", lambda: s.new(ST, "SDMXG1Settings", pows_perm(), num(2), num(1))))
     sd = deg.Map({deg.Fraction(1): Tup([lst(num(2), num(0), num(1)), lst(num(3), num(2), num(1), num(2))]),
                   deg.Fraction(2): Tup([lst(num(1), num(2)), lst(num(2), num(1), num(0), num(1))])})
@@ -687,6 +687,14 @@ def mutants(tree):
                "            self.fit_matrix = np.linalg.solve(vals.T, LJ).T", expect="sdmx-deg"),
         Mutant("SDMXFull declares 3+n -> 5+n for l=1 terms", ST, "            for n, rdr in self.iterate_l1_terms(ratio):\n                usps.append(3 + n)",
                "            for n, rdr in self.iterate_l1_terms(ratio):\n                usps.append(5 + n)", expect="sdmx-deg"),
+        Mutant("SDMXPlan H^d matrices loop over range(ndt) instead of pows[:ndt]", PL, "for n in settings.pows[:ndt]",
+               "for n in range(ndt)", expect="sdmx-deg"),
+        Mutant("SDMXPlan H^1 matrices loop over all pows instead of pows[:n1t]", PL, "for n in settings.pows[:n1t]",
+               "for n in settings.pows[-n1t:]", expect="sdmx-deg"),
+        Mutant("FracLapl ld normalisers offset by nk1 instead of len(l1_dots)", ST, "start = self.nk0 + len(self.l1_dots)",
+               "start = self.nk0 + self.nk1", expect="reasonable"),
+        Mutant("SDMXG declared powers repeat the last ndt pows", ST, "return usps + usps[: self.ndterms]",
+               "return usps + usps[-self.ndterms :]", expect=None),
         Mutant("LDA exchange rho^(4/3) -> rho^(1/3)", BL, "e[:] += LDA_FACTOR * rho ** (4.0 / 3)\n",
                "e[:] += LDA_FACTOR * rho ** (1.0 / 3)\n", expect="base-deg"),
         Mutant("PBE dedx[1] loses rho^(4/3)", BL, "dedx[1] += LDA_FACTOR * rho ** (4.0 / 3) * dfx",
